@@ -288,7 +288,21 @@ func init() {
 				wideCover("chain", fam.Chain, deferBoth, false, 150, 0),
 			},
 			traces: stdTraces("cycle", tweak(medium, func(f *fam.Features) { f.Types = 3; f.PNamed = 0.05 }), 0.05, allOpts),
-			extra:  graphStage})})
+			extra: func(rep *Report, def *propDef) {
+				graphStage(rep, def)
+				r := rand.New(rand.NewSource(rep.Seed))
+				var idx []int
+				for i := 0; i < scale(rep.Tier, 40, 300); i++ {
+					idx = append(idx, r.Intn(512))
+				}
+				tree := map[string]string{"r": "", "a": "r", "b": "a"}
+				pl := func(g, i int) fam.Place {
+					return fam.Place{Scope: []string{"r", "a", "b"}[(g>>uint(i))%3], Exp: (g>>uint(3+i))%4 == 0 && (g>>uint(i))%3 != 0}
+				}
+				cats := fam.Digraphs(3, idx, pl, "grp", deferBoth, tree)
+				cats = append(cats, fam.Sample(fam.Chain(recBoth, false), rep.Seed, scale(rep.Tier, 25, 200))...)
+				livenessStage(rep, "digraphs+chain", cats, Bounds{MaxInv: 1, MaxFaults: 1, FaultKinds: errKinds})
+			}})})
 
 	register(&propDef{id: "C06",
 		projection: "state before/after a rejected Provide or Decorate (real versus real), model state after it, and every later observation of the history",
